@@ -24,6 +24,9 @@
 (***************************************************************************)
 EXTENDS TraceLib, Integers, FiniteSets
 
+CONSTANT Mode    \* "all" or the id of the property whose conditions are enforced
+On(p) == Mode = "all" \/ Mode = p
+
 VARIABLES l,
     pos,      \* [node -> last topology position]
     head,     \* [node -> [chain -> [num, self, ext]]]
@@ -63,17 +66,17 @@ WS ==
            uq == FGet(uniq, n, {})
        IN
         \* C35
-        /\ Ev.pos > FGet(pos, n, -1)
+        /\ (On("C35") => Ev.pos > FGet(pos, n, -1))
         \* a snapshot enters the head round of its chain (unknown head: first event of a genesis chain)
-        /\ (hd.num # -1 => Ev.round = hd.num)
+        /\ (On("C20") /\ hd.num # -1 => Ev.round = hd.num)
         \* never twice, and a transaction at most once per chain on this node
-        /\ Ev.hash \notin sn
-        /\ \A i \in 1..Len(Ev.txs) : <<c, Ev.txs[i]>> \notin uq
+        /\ (Mode = "all" => Ev.hash \notin sn)
+        /\ (Mode = "all" => \A i \in 1..Len(Ev.txs) : <<c, Ev.txs[i]>> \notin uq)
         \* C28 batch rule
-        /\ (Len(Ev.txs) > 1 => \A i \in 1..Len(Ev.types) : Ev.types[i] \in Batchable)
-        /\ (Ev.round = 0 => Len(Ev.txs) = 1)
+        /\ (On("C28") /\ Len(Ev.txs) > 1 => \A i \in 1..Len(Ev.types) : Ev.types[i] \in Batchable)
+        /\ (Mode = "all" /\ Ev.round = 0 => Len(Ev.txs) = 1)
         \* C19 one day per round
-        /\ (op # {} /\ dy # -1 => Ev.day = dy)
+        /\ (Mode = "all" /\ op # {} /\ dy # -1 => Ev.day = dy)
         /\ pos' = FPut(pos, n, Ev.pos)
         /\ head' = IF hd.num = -1
                    THEN FPut(head, n, FPut(FGet(head, n, << >>), c, [num |-> Ev.round, self |-> "?", ext |-> "?"]))
@@ -93,14 +96,13 @@ SNR ==
            key == <<c, Ev.number - 1>>
        IN
         \* C20: exactly one higher (a chain that is new to this node starts at 0, genesis chains unknown)
-        /\ (hd.num # -1 => Ev.number = hd.num + 1)
-        /\ (hd.num = -1 /\ Ev.number > 0 => TRUE)
-        /\ (Ev.number > 0 /\ Has(Ev, "extchain") =>
+        /\ (On("C20") /\ hd.num # -1 => Ev.number = hd.num + 1)
+        /\ (On("C20") /\ Ev.number > 0 /\ Has(Ev, "extchain") =>
                 /\ Ev.extchain # c
                 /\ Ev.extnum >= FGet(lk, <<c, Ev.extchain>>, 0))
         \* closing a round: it is not empty, and every node closes it with the same set
-        /\ (hd.num # -1 /\ Ev.number > 0 => op # {})
-        /\ (hd.num # -1 /\ Ev.number > 0 /\ key \in DOMAIN closed => closed[key] = op)
+        /\ (Mode = "all" /\ hd.num # -1 /\ Ev.number > 0 => op # {})
+        /\ (Mode = "all" /\ hd.num # -1 /\ Ev.number > 0 /\ key \in DOMAIN closed => closed[key] = op)
         /\ closed' = IF hd.num # -1 /\ Ev.number > 0 /\ key \notin DOMAIN closed THEN FPut(closed, key, op) ELSE closed
         /\ head' = FPut(head, n, FPut(FGet(head, n, << >>), c, [num |-> Ev.number, self |-> Ev.self, ext |-> Ev.external]))
         /\ open' = FPut(open, n, FPut(FGet(open, n, << >>), c, {}))
@@ -116,10 +118,10 @@ UEH ==
            op == FGet(FGet(open, n, << >>), c, {})
            lk == FGet(link, n, << >>)
        IN
-        /\ (hd.num # -1 => Ev.number = hd.num)
-        /\ op = {}                               \* only an empty head may change its references
-        /\ (hd.num # -1 /\ hd.self # "?" => Ev.self = hd.self)
-        /\ (Has(Ev, "extchain") => Ev.extchain # c /\ Ev.extnum >= FGet(lk, <<c, Ev.extchain>>, 0))
+        /\ (On("C20") /\ hd.num # -1 => Ev.number = hd.num)
+        /\ (On("C20") => op = {})                     \* only an empty head may change its references
+        /\ (On("C20") /\ hd.num # -1 /\ hd.self # "?" => Ev.self = hd.self)
+        /\ (On("C20") /\ Has(Ev, "extchain") => Ev.extchain # c /\ Ev.extnum >= FGet(lk, <<c, Ev.extchain>>, 0))
         /\ head' = FPut(head, n, FPut(FGet(head, n, << >>), c, [num |-> Ev.number, self |-> Ev.self, ext |-> Ev.external]))
         /\ link' = IF Has(Ev, "extchain") THEN FPut(link, n, FPut(lk, <<c, Ev.extchain>>, Ev.extnum)) ELSE link
         /\ UNCHANGED <<pos, open, days, snaps, uniq, cons, closed, consSeq>>
@@ -131,13 +133,13 @@ WCS ==
     /\ LET n == Ev.node
            cs == FGet(cons, n, [tx |-> "", day |-> -1, ms |-> -1, n |-> 0])
        IN
-        /\ Ev.type \in ConsensusClass
+        /\ (On("C28") => Ev.type \in ConsensusClass)
         /\ IF cs.tx = Ev.tx
            THEN UNCHANGED <<cons, consSeq>>        \* idempotent repeat
-           ELSE /\ (cs.tx # "" => Ev.ref = cs.tx /\ Later(cs.day, cs.ms, Ev.day, Ev.ms))
+           ELSE /\ (On("C28") /\ cs.tx # "" => Ev.ref = cs.tx /\ Later(cs.day, cs.ms, Ev.day, Ev.ms))
                 \* every node records the same chain: this node's k-th marker is the global k-th
-                /\ (cs.n + 1 <= Len(consSeq) => consSeq[cs.n + 1] = Ev.tx)
-                /\ (cs.tx = "" \/ cs.n + 1 <= Len(consSeq) + 1)
+                /\ (On("C28") /\ cs.n + 1 <= Len(consSeq) => consSeq[cs.n + 1] = Ev.tx)
+                /\ (On("C28") => cs.tx = "" \/ cs.n + 1 <= Len(consSeq) + 1)
                 /\ consSeq' = IF cs.tx # "" /\ cs.n + 1 = Len(consSeq) + 1 THEN Append(consSeq, Ev.tx)
                               ELSE IF cs.tx = "" /\ consSeq = << >> THEN <<Ev.tx>> ELSE consSeq
                 /\ cons' = FPut(cons, n, [tx |-> Ev.tx, day |-> Ev.day, ms |-> Ev.ms,
@@ -146,7 +148,13 @@ WCS ==
                                                 ELSE cs.n + 1])
         /\ UNCHANGED <<pos, head, open, days, link, snaps, uniq, closed>>
 
-Next == WS \/ SNR \/ UEH \/ WCS
+\* a new, independent network starts (the driver groups the events by network)
+Reset ==
+    /\ IsEvent("Reset")
+    /\ pos' = << >> /\ head' = << >> /\ open' = << >> /\ days' = << >> /\ link' = << >>
+    /\ snaps' = << >> /\ uniq' = << >> /\ cons' = << >> /\ closed' = << >> /\ consSeq' = << >>
+
+Next == WS \/ SNR \/ UEH \/ WCS \/ Reset
 Spec == Init /\ [][Next]_vars
 HW == HighWaterOf(l)
 Accepted == TraceAcceptedAt
